@@ -174,11 +174,11 @@ PROPS = {
     },
     'C06': {
         'level_text': "Proof (before_abort, after_success_on_ok, no_after_success_on_err, ok_implies_after_all_proceed, after_abort_panics): a Before-stage abort at any position returns the receiver unchanged with the abort's kind, the carried name (callback name for invalid-transition) and the event; AfterSuccess stages run exactly once each, last, only on success; an AfterSuccess abort always panics with the generated message and never yields Ok/Err. RefineVeto.refines_spec_veto: along every history the wrapper is the abstract machine in which an event fires iff there is an edge, no around callback of the edge vetoes (with any error kind), guards true, unless false.",
-        'level_note': 'Tie: T2 regions AB AA (panic literal included).',
+        'level_note': 'Tie: T2 regions AB AA (panic literal included) and HD (the wrapper hands the veto on: RefineVeto / RefineReply are about handle).',
         'title': 'Around callbacks can veto before the transition and are never swallowed after',
         'modules': ['SMV.Props.C06', 'SMV.Props.RefineVeto', 'SMV.Props.RefineSkipVeto'],
         't5': True,
-        'regions': ['AB', 'AA'],
+        'regions': ['AB', 'AA', 'HD'],
         't3': ['assign'],
         'design_ref': 'DESIGN.md §7 C06',
     },
